@@ -348,6 +348,17 @@ func (x *fnExec) external(fr *frame, st *State, ci ssa.CallInstruction, res ssa.
 	case "math.Abs":
 		set(scalar(mk("fp.abs", SFP64, args[0].T), resT))
 		return
+	case "(time.Duration).Seconds":
+		// exactly the library's definition: float64(d/1e9) + float64(d%1e9)/1e9
+		d := args[0].T
+		e9 := BVU(1000000000, 64)
+		sec := BVBin("bvsdiv", d, e9)
+		nsec := BVBin("bvsrem", d, e9)
+		i64, f64 := types.Typ[types.Int64], types.Typ[types.Float64]
+		fs := x.convert(scalar(sec, i64), i64, f64).T
+		fn := x.convert(scalar(nsec, i64), i64, f64).T
+		set(scalar(FPBin("fp.add", fs, FPBin("fp.div", fn, FPLit(1e9))), resT))
+		return
 	case "math.Inf":
 		set(scalar(Ite(BVCmp("bvsge", args[0].T, BVU(0, 64)), mkN("fpnan", "(_ +oo 11 53)", SFP64), mkN("fpnan", "(_ -oo 11 53)", SFP64)), resT))
 		return
